@@ -80,8 +80,17 @@ class UpgradedAnnotation(metaclass=abc.ABCMeta):
 
     def __eq__(self, other):
         if isinstance(other, UpgradedAnnotation):
-            return self.source_value() == other.source_value()
+            try:
+                return self.source_value() == other.source_value()
+            except Exception:
+                # a postponed annotation that cannot be evaluated (eg. a
+                # name only imported for type checking): same text in the
+                # same globals is all that can be said
+                return self._unevaluated() == other._unevaluated()
         return False
+
+    def _unevaluated(self):
+        return (type(self), id(self))
 
 
 def _is_co_flag_enabled(obj):
@@ -110,6 +119,9 @@ class _PostponedAnnotation(UpgradedAnnotation):
 
     def source_value(self):
         return eval(self._raw_annotation, self._function.__globals__, {})
+
+    def _unevaluated(self):
+        return (type(self), self._raw_annotation, id(self._function.__globals__))
 
 
 @attr.define(eq=False)
